@@ -18,6 +18,9 @@ func typeShort(t types.Type) string {
 	s := t.String()
 	s = strings.ReplaceAll(s, modPath+"/", "")
 	s = strings.ReplaceAll(s, modPath+".", "dtls.")
+	if len(aliasType) > 0 {
+		s = aliasedTypeNames(s)
+	}
 	return s
 }
 
@@ -41,7 +44,7 @@ func namedOf(t types.Type) string {
 	if n.Obj().Pkg() == nil {
 		return n.Obj().Name()
 	}
-	return shortPath(n.Obj().Pkg().Path()) + "." + n.Obj().Name()
+	return shortPath(n.Obj().Pkg().Path()) + "." + typeNameOf(n.Obj())
 }
 
 // calleeName gives a stable name for the target of a call:
@@ -171,7 +174,7 @@ func fieldOfAddr(v ssa.Value) (owner, field string, base ssa.Value, ok bool) {
 	if st == nil {
 		return "", "", nil, false
 	}
-	return namedOrType(derefType(fa.X.Type())), st.Field(fa.Field).Name(), fa.X, true
+	return namedOrType(derefType(fa.X.Type())), fieldName(st.Field(fa.Field)), fa.X, true
 }
 
 // fieldLoad: if v is a load x.F (through FieldAddr+deref or Field) returns owner, field, base.
@@ -186,7 +189,7 @@ func fieldLoad(v ssa.Value) (owner, field string, base ssa.Value, ok bool) {
 		if st == nil {
 			return "", "", nil, false
 		}
-		return namedOrType(x.X.Type()), st.Field(x.Field).Name(), x.X, true
+		return namedOrType(x.X.Type()), fieldName(st.Field(x.Field)), x.X, true
 	}
 	return "", "", nil, false
 }
@@ -534,7 +537,7 @@ func accessPath(addr ssa.Value) (root ssa.Value, path string) {
 		r, p := accessPath(x.X)
 		name := "?"
 		if st != nil {
-			name = st.Field(x.Field).Name()
+			name = fieldName(st.Field(x.Field))
 		}
 		return r, p + "." + name
 	case *ssa.UnOp:
@@ -952,4 +955,73 @@ func (c *Ctx) methodInSomeInterface(fn *ssa.Function) bool {
 		}
 	}
 	return false
+}
+
+// unitFuncs: fn together with the unexported same-package functions and function literals it
+// calls statically (transitively, bounded): the unit a maintainer may freely re-cut into helpers.
+func (c *Ctx) unitFuncs(fn *ssa.Function) []*ssa.Function {
+	seen := map[*ssa.Function]bool{fn: true}
+	out := []*ssa.Function{fn}
+	var rec func(f *ssa.Function, d int)
+	rec = func(f *ssa.Function, d int) {
+		if d > 3 {
+			return
+		}
+		for _, b := range f.Blocks {
+			for _, in := range b.Instrs {
+				var g *ssa.Function
+				switch x := in.(type) {
+				case ssa.CallInstruction:
+					g = x.Common().StaticCallee()
+				case *ssa.MakeClosure:
+					g, _ = x.Fn.(*ssa.Function)
+				}
+				if g == nil || seen[g] || len(g.Blocks) == 0 {
+					continue
+				}
+				if g.Parent() == nil && (g.Pkg == nil || g.Pkg != fn.Pkg || token.IsExported(g.Name())) {
+					continue
+				}
+				seen[g] = true
+				out = append(out, g)
+				rec(g, d+1)
+			}
+		}
+	}
+	rec(fn, 0)
+	return out
+}
+
+// OriginsIP is Origins with parameters of closed-world functions (every call site known)
+// replaced by the origins of the corresponding arguments at those call sites.
+func (c *Ctx) OriginsIP(v ssa.Value, depth int) []ssa.Value {
+	var out []ssa.Value
+	for _, l := range c.Origins(v, 0) {
+		p, ok := l.(*ssa.Parameter)
+		if !ok || depth >= 3 {
+			out = append(out, l)
+			continue
+		}
+		fn := p.Parent()
+		idx := -1
+		for i, q := range fn.Params {
+			if q == p {
+				idx = i
+			}
+		}
+		sites, closed := c.staticCallers(fn)
+		if idx < 0 || !closed || len(sites) == 0 {
+			out = append(out, l)
+			continue
+		}
+		for _, s := range sites {
+			args := s.Call.Common().Args
+			if idx < len(args) {
+				out = append(out, c.OriginsIP(args[idx], depth+1)...)
+			} else {
+				out = append(out, l)
+			}
+		}
+	}
+	return out
 }
